@@ -20,3 +20,11 @@ Record MathFacts (P : Params) : Prop := {
   mf_G : oc P (G P) /\ G P <> None;
   mf_ord : pmul P (cn P) (G P) = None
 }.
+
+(* Consequences of the primality of n and p for the Fermat-style inverse used by the model
+   (minv m a = a^(m-2) mod m).  Kept separate so that it can be discharged from [mf_n_prime] /
+   [mf_p_prime] by Fermat's little theorem (Proofs/Fermat.v) without touching the users. *)
+Record InvFacts (P : Params) : Prop := {
+  if_ninv : forall a, 0 < a < cn P -> (minv (cn P) a * a) mod (cn P) = 1;
+  if_pinv : forall a, 0 < a < cp P -> (minv (cp P) a * a) mod (cp P) = 1
+}.
